@@ -357,6 +357,41 @@ pub mod ss {
         })
     }
 
+    /// `n` threads decode the same wire bytes through fresh codecs of one shared server context, released together
+    pub fn race(ctx: &SsCtx, wire: &[u8], n: usize) -> String {
+        use tokio_util::codec::Decoder;
+        fn go<const N: usize>(c: &sv::shadowsocks::ServerContext<N>, wire: &[u8], n: usize) -> String {
+            let barrier = std::sync::Barrier::new(n);
+            let accepted = std::sync::atomic::AtomicUsize::new(0);
+            let panicked = std::sync::atomic::AtomicUsize::new(0);
+            std::thread::scope(|s| {
+                for _ in 0..n {
+                    s.spawn(|| {
+                        let mut codec = sv::shadowsocks::PayloadCodec::from(c);
+                        let mut src = BytesMut::from(wire);
+                        barrier.wait();
+                        match std::panic::catch_unwind(std::panic::AssertUnwindSafe(|| codec.decode(&mut src))) {
+                            Ok(Ok(Some(_))) => {
+                                accepted.fetch_add(1, std::sync::atomic::Ordering::SeqCst);
+                            }
+                            Ok(_) => (),
+                            Err(_) => {
+                                panicked.fetch_add(1, std::sync::atomic::Ordering::SeqCst);
+                            }
+                        }
+                    });
+                }
+            });
+            let p = panicked.into_inner();
+            format!("accepted={} of={}{}", accepted.into_inner(), n, if p > 0 { format!(" panics={}", p) } else { String::new() })
+        }
+        match ctx {
+            SsCtx::S16(c) => go(c, wire, n),
+            SsCtx::S32(c) => go(c, wire, n),
+            _ => "bad-op".into(),
+        }
+    }
+
     pub fn new_stream(ctx: &SsCtx, addr: Option<Address>) -> Result<Boxed> {
         Ok(match ctx {
             SsCtx::C16(c) => Box::new(Framed::<_, BytesMut>::new(cv::shadowsocks::tcp::new_payload_codec(&addr.ok_or(anyhow::anyhow!("addr"))?, c.clone())?)),
